@@ -825,6 +825,7 @@ WORKLOADS: dict[str, Callable[[], Workflow]] = {
     "transient2ctx": lambda: wl_transient(2, with_ctx=True),
     "selfloop2": lambda: wl_selfloop(2),
     "backjump1": lambda: wl_backjump(1),
+    "backjump2": lambda: wl_backjump(2),
     "backjump1sib": lambda: wl_backjump(1, sibling=True),
     "fwdjump": wl_forward_jump,
     "joinjump": wl_joinjump,
